@@ -34,6 +34,7 @@ def classify(res, r, e, o):
 
 
 def correspond(res, tier, seed):
+    cc.regen_check(res)   # the generated codec files are what the generator produces from the table
     cc.run_stream(res, 'TestVerifC01', tier, seed, classify, lambda r, e: ('x' in r and '((' in r))
     res.extra['programs'] = res.extra.get('types_covered')
 
